@@ -470,8 +470,12 @@ func checkC06(P *Prog, r *Result) {
 				// receiver derived from a struct field selection of input data needs CanInterface
 				if sel := P.viaFieldSelection(s.operand); sel != nil {
 					selTainted, _ := P.inputTainted(g, fn, s.operand)
+					if !selTainted && sel.Parent() != fn {
+						// the selection is made in a helper: what it selects from decides
+						selTainted, _ = P.inputTainted(g, sel.Parent(), sel.Call.Args[0])
+					}
 					if selTainted {
-						if P.guardedByCall(b, "CanInterface", s.operand, true) || P.guardedByCall(b, "IsExported", nil, true) {
+						if P.guardedByCall(b, "CanInterface", s.operand, true) || P.guardedByCall(b, "IsExported", nil, true) || P.helperVouchesCanInterface(b, s.operand) {
 							r.ok("C06/panic-site", c, pos, "Interface() on a struct field of input data is guarded by CanInterface()")
 						} else {
 							r.bad("C06/panic-site", c, pos, "reflect.Value.Interface() is called on a field selected from an input struct without CanInterface(): an unexported field whose name matches a schema key panics ('cannot return value obtained from unexported field')")
@@ -675,7 +679,29 @@ func (P *Prog) viaFieldSelection1(rv ssa.Value, seen map[ssa.Value]bool) *ssa.Ca
 	}
 	seen[v] = true
 	for d := 0; d < 10; d++ {
+		idx := 0
+		if ex, isEx := v.(*ssa.Extract); isEx {
+			// `field, err := rv.FieldByIndexErr(...)`, or the first result of a helper
+			idx = ex.Index
+			v = ex.Tuple
+		}
 		c, ok := v.(*ssa.Call)
+		if ok {
+			// a module helper that returns the selected field (`s.fieldByName(key)`)
+			if callee := callOf(c).static; callee != nil && callee.Blocks != nil && inModule(funcPkgPath(callee)) {
+				var found *ssa.Call
+				eachInstr(callee, func(_ *ssa.BasicBlock, _ int, in ssa.Instruction) {
+					if rt, isRet := in.(*ssa.Return); isRet && idx < len(rt.Results) && found == nil {
+						if rvs, okRV := retVals(rt); okRV {
+							found = P.viaFieldSelection1(rvs[idx], seen)
+						} else {
+							found = P.viaFieldSelection1(rt.Results[idx], seen)
+						}
+					}
+				})
+				return found
+			}
+		}
 		if !ok {
 			if ph, ok := v.(*ssa.Phi); ok {
 				for _, e := range ph.Edges {
@@ -691,7 +717,7 @@ func (P *Prog) viaFieldSelection1(rv ssa.Value, seen map[ssa.Value]bool) *ssa.Ca
 			return nil
 		}
 		switch ci.static.Name() {
-		case "Field", "FieldByName", "FieldByIndex", "FieldByNameFunc":
+		case "Field", "FieldByName", "FieldByIndex", "FieldByNameFunc", "FieldByIndexErr":
 			return c
 		case "Elem", "Index", "Addr", "Indirect":
 			v = cv(c.Call.Args[0])
@@ -1841,4 +1867,86 @@ func foreignNumber(v ssa.Value, about ssa.Value, depth int) string {
 		}
 	}
 	return ""
+}
+
+// helperVouchesCanInterface: the value is result #0 of a module helper `field, ok := s.readableField(key)`, the block
+// lies on the true edge of that same call's boolean result, and inside the helper that result is true only where
+// CanInterface() of the returned field holds: a return of constant true is dominated by the test, or the result is the
+// test itself (possibly as the last operand of a conjunction, which SSA renders as a phi with false edges).
+func (P *Prog) helperVouchesCanInterface(b *ssa.BasicBlock, v ssa.Value) bool {
+	ex, ok := cv(v).(*ssa.Extract)
+	if !ok {
+		return false
+	}
+	call, ok := ex.Tuple.(*ssa.Call)
+	if !ok {
+		return false
+	}
+	callee := callOf(call).static
+	if callee == nil || callee.Blocks == nil || !inModule(funcPkgPath(callee)) {
+		return false
+	}
+	// which boolean result is tested true on the way to b?
+	okIdx := -1
+	for _, gd := range guardsOf(b) {
+		c, pol := gd.If.Cond, gd.True
+		if u, isU := c.(*ssa.UnOp); isU && u.Op == token.NOT {
+			c, pol = u.X, !pol
+		}
+		if e2, isEx := c.(*ssa.Extract); isEx && e2.Tuple == ssa.Value(call) && pol {
+			okIdx = e2.Index
+		}
+	}
+	if okIdx < 0 {
+		return false
+	}
+	var implies func(x ssa.Value, field ssa.Value, depth int) bool
+	implies = func(x ssa.Value, field ssa.Value, depth int) bool {
+		if depth > 4 {
+			return false
+		}
+		switch y := x.(type) {
+		case *ssa.Const:
+			bv, isB := constBool(y)
+			return isB && !bv // constant false vouches for nothing and is never taken as "ok"
+		case *ssa.Call:
+			ci := callOf(y)
+			return ci.static != nil && isPkgFunc(ci.static, "reflect") && ci.static.Name() == "CanInterface" && sameReflectValue(y.Call.Args[0], field)
+		case *ssa.Phi:
+			for _, e := range y.Edges {
+				if !implies(e, field, depth+1) {
+					return false
+				}
+			}
+			return true
+		}
+		return false
+	}
+	all, n := true, 0
+	eachInstr(callee, func(rb *ssa.BasicBlock, _ int, in ssa.Instruction) {
+		rt, isRet := in.(*ssa.Return)
+		if !isRet {
+			return
+		}
+		rvs, okRV := retVals(rt)
+		if !okRV {
+			rvs = rt.Results
+		}
+		if ex.Index >= len(rvs) || okIdx >= len(rvs) {
+			all = false
+			return
+		}
+		n++
+		field, okv := rvs[ex.Index], rvs[okIdx]
+		if bv, isB := constBool(cv(okv)); isB {
+			if bv && !P.guardedByCall(rb, "CanInterface", field, true) {
+				all = false
+			}
+			return
+		}
+		if !implies(cv(okv), field, 0) {
+			all = false
+		}
+	})
+	return all && n > 0
 }
